@@ -8,7 +8,7 @@ package reflection
 //@ field Analyzer.cache guarded_by mu contents map[uintptr]*ConstructorInfo
 //@ field Analyzer.invokerCache guarded_by invokerMu contents map[uintptr]*ConstructorInvoker
 //
-//@ lockinv Analyzer.invokerMu invokers_complete: forall k uintptr :: (k in self.invokerCache) ==> self.invokerCache[k] != nil && self.invokerCache[k].paramBuilder != nil
+//@ lockinv Analyzer.invokerMu invokers_complete: forall k uintptr :: (k in self.invokerCache) ==> self.invokerCache[k] != nil && self.invokerCache[k].paramBuilder != nil && self.invokerCache[k].paramBuilder.analyzer != nil
 //@ lockinv Analyzer.mu cache_entries_nonnil: forall k uintptr :: (k in self.cache) ==> self.cache[k] != nil
 //
 // The resolver handed to the invoker is the scope: resolving a dependency may run user constructors.
@@ -40,7 +40,8 @@ package reflection
 //@   safety off
 //@   nopanic
 //@   modifies ConstructorInvoker.*, ParamObjectBuilder.*, map[uintptr]*ConstructorInvoker, alloc
-//@   ensures[C15] nonnil: result != nil && result.paramBuilder != nil
+//@   requires recv: a != nil
+//@   ensures[C15] nonnil: result != nil && result.paramBuilder != nil && result.paramBuilder.analyzer != nil
 //
 //@ func ResultObjectProcessor.ProcessResultObject
 //@   safety off
@@ -61,6 +62,7 @@ package reflection
 //@ field ConstructorInfo.HasErrorReturn immutable
 //@ field ConstructorInfo.InstanceValue immutable
 //@ field ConstructorInvoker.paramBuilder immutable
+//@ field ParamObjectBuilder.analyzer immutable
 //
 // ---------------------------------------------------------------------------------------------
 // Argument resolution (C03: one resolver call per injection site; C04: the right lookup for the declared identity).
@@ -85,7 +87,7 @@ package reflection
 //@   interferes
 //@   nopanic
 //@   safety[C15]
-//@   requires args: ci != nil && ci.paramBuilder != nil && info != nil && resolver != nil && info.Type != nil
+//@   requires args: ci != nil && ci.paramBuilder != nil && ci.paramBuilder.analyzer != nil && info != nil && resolver != nil && info.Type != nil
 //@   ensures[C03,C04] one_resolution_per_parameter_in_order: !info.IsParamObject && result1 == nil ==> ncalls("ConstructorInvoker.resolveParameter") == len(info.Parameters)
 //@        && ncalls("ParamObjectBuilder.BuildParamObject") == 0 && len(result0) == len(info.Parameters)
 //@        && (forall i int :: 0 <= i && i < len(info.Parameters) ==> callarg("ConstructorInvoker.resolveParameter", i, 2) == resolver
@@ -173,7 +175,7 @@ package reflection
 //@   interferes
 //@   nopanic
 //@   safety[C15]
-//@   requires args: ci != nil && ci.paramBuilder != nil && info != nil && resolver != nil && (info.IsFunc ==> info.Type != nil)
+//@   requires args: ci != nil && ci.paramBuilder != nil && ci.paramBuilder.analyzer != nil && info != nil && resolver != nil && (info.IsFunc ==> info.Type != nil)
 //@   ensures[C01,C04] instance_values_are_not_invoked: !info.IsFunc ==> ncalls("ConstructorInvoker.invokeWithRecovery") == 0 && ncalls("ConstructorInvoker.buildArguments") == 0 && err == nil
 //@        && len(results) == 1 && results[0] == ext("reflect.ValueOf", "reflect.Value", info.InstanceValue)
 //@   ensures[C01,C03] function_invoked_exactly_once: info.IsFunc ==> ncalls("ConstructorInvoker.buildArguments") == 1 && callarg("ConstructorInvoker.buildArguments", 0, 1) == info && callarg("ConstructorInvoker.buildArguments", 0, 2) == resolver
